@@ -2019,7 +2019,13 @@ class IMAPClientCommand:
         # We must match the case insensitive string 'mailbox' first because
         # our other mailbox names are case sensitive.
         #
-        mbox_name = self._p_simple_string("inbox", silent=True)
+        # NOTE: Only the exact name is the inbox: "inboxes" or "inbox/sub" are
+        #       ordinary (case sensitive) mailbox names that merely start with
+        #       those five letters.
+        #
+        mbox_name = None
+        if self.input[5:6] in ("", " ", "\r", "\n", ")"):
+            mbox_name = self._p_simple_string("inbox", silent=True)
         if mbox_name is None:
             mbox_name = self._p_astring()
         if mbox_name == "":
